@@ -12,7 +12,7 @@ checking, or that the translator refuses the shape.  Expected on the pinned tree
   e_*, l_*  the CLI options of s3s-fs (plain String secret) logged as a whole            -> C16_raw_secret_holders_not_logged
   f_*   .expose() in another function                                                    -> C16_expose_only_in_signature_fns, C16_taint_flows_only_into_mac
   g_*, i_*  shapes outside the recognised ones                                           -> the translator refuses
-  h_*   Serialize prints the key                                                         -> C16_secret_render_constant
+  h_*   Serialize prints the key (always / only for formats that are not human readable)   -> C16_secret_render_constant
   j_*   format!() of the exposed key inside calculate_signature                          -> C16_taint_flows_only_into_mac
   k_*   debug!(?secret_key) of a local SecretKey (harmless, flagged by name: conservative) -> C16_taint_sites_clean
 
@@ -94,6 +94,10 @@ def g_unknown_macro_shape():
 @T
 def h_serialize_prints_key():
     sub('crates/s3s/src/auth/secret_key.rs', '<str as Serialize>::serialize(PLACEHOLDER, serializer)', '<str as Serialize>::serialize(&self.0, serializer)')
+@T
+def h2_serialize_redacts_only_human_readable():
+    sub('crates/s3s/src/auth/secret_key.rs', '        <str as Serialize>::serialize(PLACEHOLDER, serializer)\n',
+        '        if serializer.is_human_readable() {\n            <str as Serialize>::serialize(PLACEHOLDER, serializer)\n        } else {\n            serializer.serialize_str(&self.0)\n        }\n')
 @T
 def i_debug_new_shape():
     sub('crates/s3s/src/auth/secret_key.rs', 'f.debug_tuple("SecretKey").field(&PLACEHOLDER).finish()', 'write!(f, "SecretKey({})", self.0.len())')
